@@ -21,12 +21,12 @@ Qed.
 Lemma existsb_ext {A} (P Q : A -> bool) S : (forall x, P x = Q x) -> existsb P S = existsb Q S.
 Proof. intros H. induction S as [|x t IH]; simpl; auto. rewrite H, IH. reflexivity. Qed.
 
-Lemma keep_groups cfg toks sel n :
-  (keep_node toks (group cfg RPlain sel) n || keep_node toks (group cfg RBatch sel) n
-   || keep_node toks (group cfg RExpensive sel) n)%bool = keep_node toks sel n.
+Lemma keep_groups cfg mf toks sel n :
+  (keep_node mf toks (group cfg RPlain sel) n || keep_node mf toks (group cfg RBatch sel) n
+   || keep_node mf toks (group cfg RExpensive sel) n)%bool = keep_node mf toks sel n.
 Proof.
   unfold keep_node, group. rewrite !existsb_filter, !existsb_or. apply existsb_ext. intros f.
-  destruct (runner_of (cfg_use_batch cfg) f); simpl; destruct (field_matches toks n f); reflexivity.
+  destruct (runner_of (cfg_use_batch cfg) f); simpl; destruct (field_matches mf toks n f); reflexivity.
 Qed.
 
 Lemma combine_keep (f1 f2 f3 : node -> bool) l :
@@ -55,11 +55,11 @@ Qed.
 
 (** the result depends on the registered names and what they resolve to, not on how they are implemented
     nor on what ShouldUseBatchFunc answers *)
-Lemma keep_node_selected_impl toks n (fs : option (list string)) :
+Lemma keep_node_selected_impl mf toks n (fs : option (list string)) :
   forall ffs ffs',
   map (fun f => (ff_name f, ff_attr f)) ffs = map (fun f => (ff_name f, ff_attr f)) ffs' ->
-  keep_node toks (match fs with Some x => filter (fun f => mem_str (ff_name f) x) ffs | None => ffs end) n =
-  keep_node toks (match fs with Some x => filter (fun f => mem_str (ff_name f) x) ffs' | None => ffs' end) n.
+  keep_node mf toks (match fs with Some x => filter (fun f => mem_str (ff_name f) x) ffs | None => ffs end) n =
+  keep_node mf toks (match fs with Some x => filter (fun f => mem_str (ff_name f) x) ffs' | None => ffs' end) n.
 Proof.
   induction ffs as [|f t IH]; intros [|f' t'] H; try discriminate H.
   - reflexivity.
@@ -71,9 +71,9 @@ Proof.
     + unfold field_matches at 1 3. rewrite Ha. f_equal. exact IH.
 Qed.
 
-Theorem filter_impl_irrelevant ffs ffs' sf sf' ub ub' l a :
+Theorem filter_impl_irrelevant ffs ffs' sf sf' ub ub' cu l a :
   map (fun f => (ff_name f, ff_attr f)) ffs = map (fun f => (ff_name f, ff_attr f)) ffs' ->
-  apply_text_filter (mk_cfg ffs sf ub) l a = apply_text_filter (mk_cfg ffs' sf' ub') l a.
+  apply_text_filter (mk_cfg ffs sf ub cu) l a = apply_text_filter (mk_cfg ffs' sf' ub' cu) l a.
 Proof.
   intros H. rewrite !apply_text_filter_eq. apply filter_ext'. intros n.
   unfold node_filter. destruct (a_ftext a) as [[|c t]|]; auto.
